@@ -10,8 +10,11 @@ from the GENERATED Manager / Connector / DCP / TrafficTimer tables on every buil
   ping interval timer, Ping/Pong/Ack on the wire and one application record per side that is re-sent on every
   new connection: 209 606 reachable states.
 
-Far beyond `decide +kernel` (≈10³ states × 25 events in minutes, DESIGN §4), so these five evaluations, and
-nothing else, use `native_decide` (≈ 30 s with the precompiled WVExec library).  It adds `Lean.ofReduceBool` /
+* `absR` — one side configured with the transit relay, direct dialling in one direction or in none, at most 2
+  links at a time: 440 822 reachable states.
+
+Far beyond `decide +kernel` (≈10³ states × 25 events in minutes, DESIGN §4), so these seven evaluations, and
+nothing else, use `native_decide` (≈ 100 s with the precompiled WVExec library).  It adds `Lean.ofReduceBool` /
 `Lean.trustCompiler` to the axioms of the theorems that use them (reported per theorem in the evidence).  The
 lifting to all runs (`Cert.cert_sound`, `Cert.converge_sound`) is ordinary kernel-checked induction.
 -/
@@ -26,6 +29,7 @@ def RP (p : Abs) : List Sys :=
 
 def R : List Sys := RP absK
 def RS : List Sys := RP absS
+def RR : List Sys := RP absR
 
 /-- `absK`: closed under every enabled event, every enabled step safe -/
 theorem cert : certList absK R = true := by native_decide
@@ -41,6 +45,11 @@ theorem certS : certList absS RS = true := by native_decide
 
 theorem certConvergeS : convergeCert absS 200 RS = true := by native_decide
 
+/-- `absR` (one side configured with the transit relay; direct dialling in one direction or in none): the same two -/
+theorem certR : certList absR RR = true := by native_decide
+
+theorem certConvergeR : convergeCert absR 200 RR = true := by native_decide
+
 theorem reach_mem (s : Sys) (hr : Reach s) : s ∈ R := (cert_sound cert s hr).1
 
 theorem reach_safe (s : Sys) (hr : Reach s) (e : Event) (he : enabledK s e = true) : safeStep s e = true :=
@@ -54,5 +63,11 @@ theorem reachS_safe (s : Sys) (hr : ReachP absS s) (e : Event) (he : enabledP ab
 
 theorem reachS_converges (s : Sys) (hr : ReachP absS s) : CanConvergeP absS s :=
   converge_sound certConvergeS s ((cert_sound certS s hr).1)
+
+theorem reachR_safe (s : Sys) (hr : ReachP absR s) (e : Event) (he : enabledP absR s e = true) : safeStep s e = true :=
+  (cert_sound certR s hr).2 e he
+
+theorem reachR_converges (s : Sys) (hr : ReachP absR s) : CanConvergeP absR s :=
+  converge_sound certConvergeR s ((cert_sound certR s hr).1)
 
 end WV.C11.Certs
